@@ -165,6 +165,16 @@ def extract_all(repo=None, use_cache=True, verbose=False):
                 f["unit"] = u
                 funcs[f["id"]] = f
                 nf += 1
+            else:
+                g = funcs[f["id"]]
+                if (g["file"], g["line"]) != (f["file"], f["line"]):
+                    # same external symbol defined in units of different programs: keep both
+                    f["unit"] = u
+                    f["alt_of"] = f["id"]
+                    f["id"] = f["id"] + "@" + u
+                    if f["id"] not in funcs:
+                        funcs[f["id"]] = f
+                        nf += 1
         for e in d["enums"]:
             enums.setdefault(e["name"] + "@" + e["file"] + ":" + str(e["line"]), e)
         for r_ in d["records"]:
@@ -186,7 +196,7 @@ def extract_all(repo=None, use_cache=True, verbose=False):
     # prune old caches (keep 3 most recent)
     root = os.path.join(BUILD, "facts")
     ds = sorted((os.path.getmtime(os.path.join(root, d)), d) for d in os.listdir(root))
-    for _, d in ds[:-3]:
+    for _, d in ds[:-6]:
         subprocess.run(["rm", "-rf", os.path.join(root, d)])
     return merged, th, True
 
@@ -312,10 +322,13 @@ class Facts:
         self.repo = d["repo"]
         self.funcs = {}
         self.by_name = {}
+        self.alts = {}
         for f in d["funcs"]:
             fn = Func(f)
             self.funcs[fn.id] = fn
             self.by_name.setdefault(fn.name, []).append(fn)
+            if f.get("alt_of"):
+                self.alts.setdefault(f["alt_of"], []).append(fn)
         self.enums = d["enums"]
         self.records = {r["name"]: r for r in d["records"]}
         self.vars = d["vars"]
